@@ -131,6 +131,14 @@ def run(ctx):
     q = ctx.quick
     cases = [make_tx(rng, rate=r, nloc=n) for r in RATES for n in ([1, 31] if q else [1, 2, 5, 13, 31])]
     cases += [make_tx(rng) for _ in range(32 if q else 1200)]
+    # the corners of the stated baud-rate tolerance at every standard rate (the timing loop works hardest there): +/-(0.95..1.00) %
+    crng = rng.fork("corners")
+    for r in RATES:
+        for sign in (1, -1):
+            for _ in range(1 if q else 6):
+                t = make_tx(crng, rate=r)
+                t.baud = sign * (950 + crng.below(51)) / 100000.0
+                cases.append(t)
     stats = run_cases(ctx, cases)
     ctx.coverage["known_finding_F9_witness_reproduces"] = rxlib.run_f9_witness(ctx, "C01")
     ctx.coverage["known_finding_F10_witness_reproduces"] = run_f10_witness(ctx)
